@@ -217,7 +217,7 @@ class World:
             settings['encryption'] = {'cipher': {'name': self.rng.choice(['aes_gcm', 'chacha20_poly1305'])}, 'kdf': dict(KDF)}
         else:
             settings['encryption'] = None
-        pw = (b'pw0' if self.rng.random() < 0.6 else b'L' * 70 + b'pw0') if self.encrypted else None
+        pw = (b'pw0' if self.rng.random() < 0.6 or getattr(self, 'default_kdf', False) else b'L' * 70 + b'pw0') if self.encrypted else None
         init = await r.init(password=pw, settings=settings)
         self.users.append({'name': 'u0', 'password': pw, 'key': init.key, 'fam': 0, 'uid': 0, 'how': 'init'})
         nfam = 1
@@ -227,16 +227,17 @@ class World:
                 continue
             how = self.rng.choice(['shared', 'shared', 'clone', 'independent'])
             src = self.rng.choice(self.users)
-            kset = {'encryption': {'kdf': dict(KDF)}}
+            # add-key without any KDF settings (what `replicat add-key --shared` does by default) in some worlds
+            kset = None if getattr(self, 'default_kdf', False) else {'encryption': {'kdf': dict(KDF)}}
             if how == 'independent':
                 rr = self.repo()
-                newpw = f'pw{i}'.encode() if self.rng.random() < 0.6 else b'L' * 70 + f'pw{i}'.encode()
+                newpw = f'pw{i}'.encode() if self.rng.random() < 0.6 or kset is None else b'L' * 70 + f'pw{i}'.encode()
                 res = await rr.add_key(password=newpw, settings=kset, shared=False)
                 self.users.append({'name': f'u{i}', 'password': newpw, 'key': res.new_key, 'fam': nfam, 'uid': i, 'how': how})
                 nfam += 1
             else:
                 rr = await self.unlocked(src)
-                newpw = src['password'] if how == 'clone' else (f'pw{i}'.encode() if self.rng.random() < 0.6 else b'L' * 70 + f'pw{i}'.encode())
+                newpw = src['password'] if how == 'clone' else (f'pw{i}'.encode() if self.rng.random() < 0.6 or kset is None else b'L' * 70 + f'pw{i}'.encode())
                 res = await rr.add_key(password=newpw, settings=kset, shared=True)
                 self.users.append({'name': f'u{i}', 'password': newpw, 'key': res.new_key, 'fam': src['fam'], 'uid': i,
                                    'how': how, 'src': src['name']})
@@ -419,6 +420,7 @@ def run_history(seed, scratch: Path, rep: Report, *, nops, weights, checks, conc
     world.long_lived = mode_ < 0.25
     world.one_object = 0.25 <= mode_ < 0.45
     world.cache_mode = rng.choice([None, None, None, 'per_user', 'shared'])
+    world.default_kdf = encrypted and rng.random() < 0.3
     segments = [[([], []), [], []]]      # [store0, model ops, observations]
     descr = []
     ops_model, observed = segments[0][1], segments[0][2]
@@ -871,6 +873,9 @@ def run_history(seed, scratch: Path, rep: Report, *, nops, weights, checks, conc
             return None
     saved_time = _U.time
     _U.time = _NoPause()
+    saved_kdf = _R.Repository.DEFAULT_USER_KDF_NAME
+    if world.default_kdf:
+        _R.Repository.DEFAULT_USER_KDF_NAME = 'blake2b'      # the default scrypt work factor is far too expensive for a history
     jitter = rng.random() < 0.35
     saved_pool = _R.ThreadPoolExecutor
     if jitter:
@@ -882,8 +887,10 @@ def run_history(seed, scratch: Path, rep: Report, *, nops, weights, checks, conc
     finally:
         _R.ThreadPoolExecutor = saved_pool
         _U.time = saved_time
+        _R.Repository.DEFAULT_USER_KDF_NAME = saved_kdf
     rep.count('thread_pool_jitter' if jitter else 'thread_pool_plain')
     rep.count('cache=' + str(world.cache_mode))
+    rep.count('add_key_kdf=' + ('defaults' if world.default_kdf else 'explicit'))
     rep.count('encrypted' if encrypted else 'unencrypted')
     rep.count('long_lived_repository_objects' if world.long_lived else 'one_repository_object_re-unlocked' if world.one_object else 'fresh_repository_per_command')
     for d in descr:
